@@ -222,6 +222,7 @@ def path_counts(cfg):
 def run(repo, rep, tier):
     r1 = rep.rule('C17.R1', 'exactly one response per path')
     r2 = rep.rule('C17.R2', 'no escaping exception before the response')
+    property_call_rule(repo, rep)
     r3 = rep.rule('C17.R3', 'header values are single-line')
     r3b = rep.rule('C17.R3b', 'body-derived header values are escaped to '
                    'latin-1 encodable text')
@@ -660,3 +661,68 @@ def run(repo, rep, tier):
                         'verb', LS, f.node.lineno if f else h.node.lineno,
                         'HTTP method %s is not answered with 405 via '
                         'invalid_method()' % v.replace('_', '-'))
+
+
+def property_call_rule(repo, rep):
+    """C17.R8: on the request path nothing calls a property.  `self.x()`
+    where x is a @property evaluates the property and then calls its value;
+    for the int-valued properties of the listener that raises TypeError in
+    the handler thread, socketserver closes the connection without a
+    response, and - when it happens in the branch that resets a state flag -
+    every later request fails the same way."""
+    r8 = rep.rule('C17.R8', 'properties are not called like methods')
+    mod = repo.module(LS)
+    n = 0
+    for c in mod.classes.values():
+        props = set()
+        for k in c.mro():
+            for f in k.node.body:
+                if isinstance(f, ast.FunctionDef) and any(
+                        (isinstance(d, ast.Name) and d.id == 'property') or
+                        (isinstance(d, ast.Attribute) and
+                         d.attr in ('getter',))
+                        for d in f.decorator_list):
+                    props.add(f.name)
+        for f in c.methods.values():
+            for x in walk_no_nested(f.node):
+                if isinstance(x, ast.Call) and \
+                        isinstance(x.func, ast.Attribute) and \
+                        isinstance(x.func.value, ast.Name) and \
+                        x.func.value.id == 'self':
+                    n += 1
+                    bad = x.func.attr in props
+                    if bad or x.func.attr in c.methods:
+                        r8.sites += 1
+                        r8.functions.add(f.fq)
+                    if bad:
+                        r8.ob(False, '%s|%s' % (f.qualname, norm(x, 50)))
+                        rep.finding(r8, f.qualname, norm(x, 60),
+                                    'property-called', LS, x.lineno,
+                                    '%s.%s is a property; calling it calls '
+                                    'the value it returns (TypeError: ... '
+                                    'object is not callable).  On the '
+                                    'request path the exception escapes '
+                                    'the handler: the connection is dropped '
+                                    'without a response' % (c.name,
+                                                            x.func.attr))
+    if n < 30:
+        raise AnalysisError('listener: only %d self.* calls found' % n)
+    # other objects of the listener: `<expr>.listener.<prop>()` etc. are
+    # out of reach without types; the handler reaches the listener through
+    # self.server.listener
+    lis = repo.cls(LS, 'WBEMListener')
+    lprops = {f.name for f in lis.node.body
+              if isinstance(f, ast.FunctionDef) and
+              any(isinstance(d, ast.Name) and d.id == 'property'
+                  for d in f.decorator_list)}
+    for c in mod.classes.values():
+        for f in c.methods.values():
+            for x in walk_no_nested(f.node):
+                if isinstance(x, ast.Call) and \
+                        isinstance(x.func, ast.Attribute) and \
+                        x.func.attr in lprops and \
+                        norm(x.func.value).endswith('listener'):
+                    rep.finding(r8, f.qualname, norm(x, 60),
+                                'property-called', LS, x.lineno,
+                                'WBEMListener.%s is a property and is '
+                                'called' % x.func.attr)
